@@ -1,0 +1,98 @@
+//go:build verif
+
+package lsm
+
+import (
+	"errors"
+
+	"github.com/feichai0017/NoKV/utils"
+)
+
+// VerifIterRotate seals the active memtable into the immutable list WITHOUT scheduling its
+// flush, so that a test can hold several immutable memtables at once.
+func (lsm *LSM) VerifIterRotate() {
+	lsm.lock.Lock()
+	lsm.rotateLocked()
+	lsm.lock.Unlock()
+}
+
+// VerifIterFlushOldest synchronously flushes the oldest immutable memtable into level 0
+// (the body of a flush worker iteration).  It reports false when there is nothing to flush.
+func (lsm *LSM) VerifIterFlushOldest() (bool, error) {
+	lsm.lock.RLock()
+	var mt *memTable
+	if len(lsm.immutables) > 0 {
+		mt = lsm.immutables[0]
+	}
+	lsm.lock.RUnlock()
+	if mt == nil {
+		return false, nil
+	}
+	if err := lsm.levels.flush(mt); err != nil {
+		return true, err
+	}
+	lsm.lock.Lock()
+	found := false
+	for idx, imm := range lsm.immutables {
+		if imm == mt {
+			lsm.immutables = append(lsm.immutables[:idx], lsm.immutables[idx+1:]...)
+			found = true
+			break
+		}
+	}
+	lsm.lock.Unlock()
+	if !found {
+		return true, errors.New("verif: immutable memtable vanished during flush")
+	}
+	_ = mt.close()
+	return true, nil
+}
+
+// VerifIterShape reports (#immutable memtables, #level-0 tables, #tables in deeper levels).
+func (lsm *LSM) VerifIterShape() (imm, l0, deeper int) {
+	lsm.lock.RLock()
+	imm = len(lsm.immutables)
+	lsm.lock.RUnlock()
+	for i, lh := range lsm.levels.levels {
+		lh.RLock()
+		n := len(lh.tables) + len(lh.ingest.allMeta())
+		lh.RUnlock()
+		if i == 0 {
+			l0 = n
+		} else {
+			deeper += n
+		}
+	}
+	return
+}
+
+// VerifIterNewestL0Blocks returns the number of entries in every block of the level-0 table with
+// the largest file id (the one the last flush produced); nil when level 0 is empty.
+func (lsm *LSM) VerifIterNewestL0Blocks() []int {
+	lh := lsm.levels.levels[0]
+	lh.RLock()
+	var t *table
+	for _, x := range lh.tables {
+		if t == nil || x.fid > t.fid {
+			t = x
+		}
+	}
+	lh.RUnlock()
+	if t == nil {
+		return nil
+	}
+	it, ok := t.NewIterator(&utils.Options{IsAsc: true}).(*tableIterator)
+	if !ok {
+		return nil
+	}
+	defer func() { _ = it.Close() }()
+	var out []int
+	for i := 0; i < len(it.index.GetOffsets()); i++ {
+		b, err := it.fetchBlock(i)
+		if err != nil || b == nil {
+			return nil
+		}
+		out = append(out, len(b.entryOffsets))
+	}
+	return out
+}
